@@ -63,8 +63,8 @@ func VP_C18_fat12_chain() {
 	n := vp.Bound("clusters", 6, 10)
 	fs, t := c18Fs(n, 512)
 	first := vp.U32("first")
-	vp.Unwind(n + 3)
-	vp.MaxLoop(n)
+	vp.Unwind(n + 5)
+	vp.MaxLoop(n + 2)
 	vp.NoPanic()
 	list, err := fs.getClusterList(first)
 	vp.AllowPanic()
@@ -92,8 +92,8 @@ func VP_C18_fat12_chain_acyclic() {
 		vp.Assume(v == 0 || v > uint32(i))
 	}
 	first := vp.U32("first")
-	vp.Unwind(n + 3)
-	vp.MaxLoop(n)
+	vp.Unwind(n + 5)
+	vp.MaxLoop(n + 2)
 	vp.NoPanic()
 	list, err := fs.getClusterList(first)
 	vp.AllowPanic()
@@ -133,7 +133,7 @@ func c18FileRead(bytesPerCluster, buflen int) {
 	vp.Assume(off >= 0)
 	fl := &File{directoryEntry: de, offset: off, filesystem: fs}
 	b := make([]byte, buflen)
-	vp.Unwind(n + 3)
+	vp.Unwind(n + 5)
 	vp.MaxLoop(n + 1)
 	if bytesPerCluster == 0 {
 		// KF-C18-6: cluster size 0 (sectors per cluster 0 is accepted by fat32.Read): division by zero
